@@ -13,6 +13,10 @@
 //!       -> ok mint=<m> xfer=<t> closed=<0|1> pos=<amt>:<val>:<cum> n=<total_positions> | err
 //!   lp claim   CE MIN CTRL DAT DCUM CUMNOW NOW AMT VAL START PCUM g
 //!       -> ok mint=<m> pos=<amt>:<val>:<cum> | err
+//!   lp chain   CE MIN CTRL DAT DCUM CUMNOW NOW AMT VAL START PCUM VAULT g steps
+//!       a HISTORY of one position run natively: steps = `dt:dcum:c` (claim_gt) | `dt:dcum:u<amt>` (unstake_lp), comma separated;
+//!       before each step the clock advances by dt and the GT cost integral by dcum; the position account bytes written by one
+//!       step are the input of the next      -> ok [m1;m2;…] pos=<amt>:<val>:<cum>:<start>|closed vault=<v>   (m = minted | e = failed)
 //! `g` = comma-separated APY buckets (missing ones are 0).
 use anchor_lang::prelude::*;
 use anchor_lang::solana_program::instruction::Instruction;
@@ -279,6 +283,76 @@ fn exec(k: &Keys, req: &str, out: &mut Out) -> (String, bool) {
             }
             (match r { Some(x) => format!("ok {x}"), None => "err".into() }, matches!(r, Some(x) if x > 0))
         }
+        "chain" => {
+            if t.len() != 16 { return bad(); }
+            let Some(mut st) = parse_state(&t[2..13]) else { return bad() };
+            let (Ok(mut vault), Some(g)) = (t[13].parse::<u64>(), parse_g(t[14])) else { return bad() };
+            st.g = g;
+            let mut steps: Vec<(u32, u128, Option<u64>)> = Vec::new();
+            for x in t[15].split(',') {
+                let p: Vec<&str> = x.split(':').collect();
+                if p.len() != 3 || !p[0].bytes().all(|b| b.is_ascii_digit()) || !p[1].bytes().all(|b| b.is_ascii_digit()) { return bad(); }
+                let (Ok(dt), Ok(dc)) = (p[0].parse::<u32>(), p[1].parse::<u128>()) else { return bad() };
+                let op = if p[2] == "c" { None } else if let Some(a) = p[2].strip_prefix('u') { if !a.is_empty() && a.bytes().all(|b| b.is_ascii_digit()) { match a.parse::<u64>() { Ok(a) => Some(a), Err(_) => return bad() } } else { return bad() } } else { return bad() };
+                steps.push((dt, dc, op));
+            }
+            if steps.len() > 8 { return bad(); }
+            let tot_dt: i128 = steps.iter().map(|x| x.0 as i128).sum();
+            let mut tot_c = Some(st.cum_now); for x in &steps { tot_c = tot_c.and_then(|c| c.checked_add(x.1)); }
+            if st.now as i128 + tot_dt > i64::MAX as i128 || tot_c.is_none() { return bad(); }
+            // the harness keeps what must never change / what the rewards must be computed from
+            let start0 = st.start;
+            let mut open = true;
+            let mut res: Vec<String> = Vec::new();
+            let mut any = false;
+            for (dt, dc, op) in steps {
+                st.now += dt as i64; st.cum_now += dc;
+                if !open { res.push("e".into()); continue; }
+                let un = op.map(|a| (vault, a));
+                let r = std::panic::catch_unwind(std::panic::AssertUnwindSafe(|| run_ix(k, &st, un)));
+                let r = match r { Ok(x) => x, Err(_) => { out.stat("ix.panic"); Err(()) } };
+                match r {
+                    Err(()) => res.push("e".into()),
+                    Ok(o) => {
+                        any = true;
+                        // ---- independent oracle: the reward is the exact time-weighted average since the ORIGINAL stake time
+                        let (end, cum_end) = if st.ctrl_enabled { (st.now, st.cum_now) } else { (st.dat, st.dcum) };
+                        let tt = end as i128 - start0 as i128;
+                        let maxg = *st.g.iter().max().unwrap();
+                        if cum_end >= st.pcum && tt <= i64::MAX as i128 {
+                            let (avg, exact_ok) = if tt <= 0 { (big(st.g[0]), true) } else { (exact_sum(&st.g, tt as u128) / big(tt as u128), big(tt as u128) * big(maxg) < (BigUint::from(1u8) << 128)) };
+                            let per_sec = avg / big(31_557_600);
+                            let a = big(st.val) * per_sec / big(unit);
+                            let b = &a * big(cum_end - st.pcum) / big(unit);
+                            let lim = BigUint::from(1u8) << 128;
+                            if exact_ok && tt >= 0 && a < lim && b < lim {
+                                let want = if b > big(u64::MAX as u128) { u64::MAX } else { u64::try_from(b).unwrap() };
+                                if o.mint != want { out.oracle_fail(&format!("step reward {} is not the exact reward {} for the window since the original stake time {}", o.mint, want, start0), req); }
+                                out.stat("chain.reward_checked");
+                            }
+                        }
+                        if !st.ce && (op.is_none() || op != Some(st.amt)) { out.oracle_fail("claim / partial unstake succeeded while claims are disabled", req); }
+                        match &o.pos {
+                            Some(p) => {
+                                if p.stake_start_time != start0 { out.oracle_fail(&format!("the stake start time changed from {} to {}", start0, p.stake_start_time), req); }
+                                if p.cum_inv_cost != cum_end { out.oracle_fail("snapshot not advanced to the checkpoint", req); }
+                                if let Some(a) = op {
+                                    let rem = st.amt - a.min(st.amt);
+                                    let nv = big(st.val) * big(rem as u128) / big(st.amt.max(1) as u128);
+                                    if p.staked_amount != rem || big(p.staked_value_usd) != nv || o.xfer != Some(a) { out.oracle_fail("partial unstake in a history: amount / proportional value / transfer wrong", req); }
+                                } else if p.staked_amount != st.amt || p.staked_value_usd != st.val { out.oracle_fail("a claim changed the staked amount or value", req); }
+                                st.amt = p.staked_amount; st.val = p.staked_value_usd; st.pcum = p.cum_inv_cost; st.start = p.stake_start_time;
+                            }
+                            None => { open = false; if op.is_none() { out.oracle_fail("a claim closed the position", req); } if o.xfer.unwrap_or(0) != vault { out.oracle_fail("full exit in a history did not sweep the vault", req); } }
+                        }
+                        vault -= o.xfer.unwrap_or(0).min(vault);
+                        res.push(o.mint.to_string());
+                    }
+                }
+            }
+            let posd = if open { format!("{}:{}:{}:{}", st.amt, st.val, st.pcum, st.start) } else { "closed".into() };
+            (format!("ok [{}] pos={} vault={}", res.join(";"), posd, vault), any)
+        }
         "unstake" | "claim" => {
             let is_un = t[1] == "unstake";
             if t.len() != if is_un { 16 } else { 14 } { return bad(); }
@@ -321,6 +395,9 @@ fn exec(k: &Keys, req: &str, out: &mut Out) -> (String, bool) {
                         (format!("ok mint={} xfer={} closed={} pos={} n={}", o.mint, o.xfer.unwrap_or(0), o.closed_vault as u8, posd, o.total_positions), true)
                     } else {
                         if !st.ce { out.oracle_fail("claim succeeded while claims are disabled", req); }
+                        match &o.pos { Some(p) => { if p.stake_start_time != st.start { out.oracle_fail("a claim changed the stake start time", req); }
+                                                    if p.staked_amount != st.amt || p.staked_value_usd != st.val { out.oracle_fail("a claim changed the staked amount or value", req); } }
+                                       None => out.oracle_fail("a claim closed the position", req) }
                         (format!("ok mint={} pos={}", o.mint, posd), true)
                     }
                 }
@@ -358,6 +435,27 @@ fn gen_req(r: &mut Rng) -> String {
         5 => week * 52 + r.range(0, 2 * week as u64) as i64 - week, 6 => r.num(62) as i64, _ => r.below(80 * week as u64) as i64,
     };
     let now = start.saturating_add(dur);
+    if r.chance(1, 6) {
+        // a HISTORY: claims enabled (mostly), non-flat gradient, stake -> claim >= 1 week later -> later claims / unstakes
+        let apy_max = 200_000_000_000_000_000_000u128;
+        let g: Vec<String> = (0..53).map(|i| match r.below(3) { 0 => (apy_max / 60 * (i as u128 + 1)).to_string(), 1 => (r.u128() % (apy_max + 1)).to_string(), _ => (apy_max / 53 * (53 - i as u128)).to_string() }).collect();
+        let ce = if r.chance(9, 10) { 1 } else { 0 };
+        let ctrl = if r.chance(9, 10) { 1 } else { 0 };
+        let start = 1_700_000_000 + r.below(1_000_000) as i64;
+        let amt = r.range(1000, 1_000_000);
+        let val = unit * r.range(1_000, 100_000) as u128 + r.below(1000) as u128;
+        let min = if r.chance(1, 2) { 0 } else { val / r.range(2, 10) as u128 };
+        let pcum = r.num(80);
+        let mut left = amt;
+        let steps: Vec<String> = (0..r.range(2, 7)).map(|_| {
+            let dt = match r.below(5) { 0 => r.below(1000), 1 => week as u64 * r.range(1, 30) + r.below(3), _ => r.range(week as u64, 12 * week as u64) };
+            let dc = match r.below(4) { 0 => 0, _ => unit / 1000 * r.range(1, 1_000_000) as u128 };
+            let op = if r.chance(2, 3) || left < 10 { "c".to_string() } else { let a = if r.chance(1, 8) { left } else { r.range(1, left / 2) }; left -= a; format!("u{a}") };
+            format!("{dt}:{dc}:{op}")
+        }).collect();
+        let dat = start + r.below(30 * week as u64) as i64;
+        return format!("lp chain {ce} {min} {ctrl} {dat} {} {pcum} {start} {amt} {val} {start} {pcum} {amt} {} {}", pcum.saturating_add(r.num(60)), g.join(","), steps.join(","));
+    }
     match r.below(10) {
         0 | 1 | 2 => { let (gs, _) = gen_g(r); format!("lp apy {start} {now} {gs}") }
         3 | 4 => {
